@@ -1,8 +1,17 @@
 //! Replay of C05 counterexamples: pushers / clearers / snapshot readers on one AtomicBucket (block size 2 in the
 //! instrumented scratch copy), then a quiescent final snapshot.
 use metrics_util::storage::AtomicBucket;
+use std::sync::atomic::{AtomicU64, Ordering};
 use std::sync::{Arc, Mutex};
 use vreplay::*;
+
+/// logical clock: the scheduler lets one thread run at a time, so ticks taken between instrumented steps are totally ordered
+static CLOCK: AtomicU64 = AtomicU64::new(1);
+fn tick() -> u64 {
+    // the marker is a scheduled step of its own (the encoding has an event at the same point)
+    metrics::verif_sched::yield_point("mark");
+    CLOCK.fetch_add(1, Ordering::SeqCst)
+}
 
 fn main() {
     let plan = load_plan(&std::env::args().nth(1).expect("plan"));
@@ -12,10 +21,14 @@ fn main() {
     let snaps: Arc<Mutex<Vec<u64>>> = Arc::new(Mutex::new(vec![]));
     let mut pushed: Vec<u64> = vec![];
     let mut hs = vec![];
+    let done_at: Arc<Mutex<Vec<(u64, u64)>>> = Arc::new(Mutex::new(vec![]));          // (value, tick at which its push had returned)
+    let reads: Arc<Mutex<Vec<(u64, Vec<u64>)>>> = Arc::new(Mutex::new(vec![]));       // (tick at which the snapshot began, what it saw)
+    let empties: Arc<Mutex<Vec<(u64, bool)>>> = Arc::new(Mutex::new(vec![]));          // (tick at which is_empty began, its answer)
     for (tid, role) in plan.threads.clone() {
         let b = bucket.clone();
         let cleared = cleared.clone();
         let snaps = snaps.clone();
+        let (done_at, reads, empties) = (done_at.clone(), reads.clone(), empties.clone());
         let parts: Vec<String> = role.split_whitespace().map(|x| x.to_string()).collect();
         if parts[0] == "push" {
             let n: u64 = parts[1].parse().unwrap();
@@ -26,11 +39,17 @@ fn main() {
             match parts[0].as_str() {
                 "push" => {
                     let n: u64 = parts[1].parse().unwrap();
-                    for k in 0..n { b.push(1000 * tid as u64 + k); }
+                    for k in 0..n { b.push(1000 * tid as u64 + k); let t = tick(); done_at.lock().unwrap().push((1000 * tid as u64 + k, t)); }
                 }
                 "clear" => b.clear_with(|vs| cleared.lock().unwrap().extend_from_slice(vs)),
-                "data" => b.data_with(|vs| snaps.lock().unwrap().extend_from_slice(vs)),
-                _ => { let _ = b.is_empty(); }
+                "data" => {
+                    let t = tick();
+                    let mut mine: Vec<u64> = vec![];
+                    b.data_with(|vs| mine.extend_from_slice(vs));
+                    snaps.lock().unwrap().extend_from_slice(&mine);
+                    reads.lock().unwrap().push((t, mine));
+                }
+                _ => { let t = tick(); let e = b.is_empty(); empties.lock().unwrap().push((t, e)); }
             }
             thread_done();
         }));
@@ -50,6 +69,20 @@ fn main() {
         if c > 1 { v.push("no_value_duplicated"); }
     }
     if cleared.iter().chain(remaining.iter()).chain(snaps.iter()).any(|x| !pushed.contains(x)) { v.push("no_value_fabricated_or_read_before_written"); }
+    let has_clear = plan.threads.iter().any(|t| t.1.starts_with("clear"));
+    if !has_clear {
+        let done_at = done_at.lock().unwrap().clone();
+        for (t0, seen) in reads.lock().unwrap().iter() {
+            for (val, td) in &done_at { if td < t0 && !seen.contains(val) { println!("snapshot begun at tick {} misses {} whose push returned at tick {}", t0, val, td); v.push("snapshot_sees_every_completed_push"); } }
+        }
+        for (t0, e) in empties.lock().unwrap().iter() {
+            if *e && done_at.iter().any(|(_, td)| td < t0) { println!("is_empty() begun at tick {} says true after a completed push", t0); v.push("is_empty_is_truthful"); }
+        }
+    }
+    // values of one pusher inside one read appear in push order
+    for (_, seen) in reads.lock().unwrap().iter() {
+        for w in seen.windows(2) { if w[0] / 1000 == w[1] / 1000 && w[0] > w[1] { v.push("block_values_in_push_order"); } }
+    }
     if panicked { v.push("no_panic"); }
     finish(&v, &plan)
 }
